@@ -174,8 +174,12 @@ func (cl *cluster) probeTLS(name, addr string, cfg *tls.Config, items [][]byte, 
 	if c.Refused {
 		return c
 	}
-	for i := 0; i < budget && !c.Finished; i++ {
+	for i := 0; i < budget; i++ {
 		cl.S.Wait()
+		// the client goroutine writes Finished: it may only be read at quiescence
+		if c.Finished {
+			break
+		}
 		acts := c.actions()
 		for _, t := range cl.S.Runnable() {
 			if l, ok := t.Obj.(*sim.Listener); ok && l.Addr().String() == addr {
